@@ -211,6 +211,51 @@ def preimage(x, S, var):
             return None
         if op in ("udiv", "sdiv") and (gate.is_c(p) != gate.is_c(q)):
             return _preimage_div(op, p, q, S, var)
+        if op in ("urem", "srem") and gate.is_c(q) and not gate.is_c(p) and q[2] != 0:
+            # x = y rem K: periodic in y; only for divisors large enough that the dividend range holds few periods
+            N = S.bits
+            m = 1 << N
+            if op == "urem":
+                k = q[2]
+                if m // k > 256:
+                    return None
+                res = S & ISet(N, [(0, k - 1)])
+                ivs = []
+                for j in range(m // k + 1):
+                    for a, b in res.ivs:
+                        lo, hi = j * k + a, min(j * k + b, m - 1)
+                        if lo <= hi:
+                            ivs.append((lo, hi))
+                return preimage(p, ISet(N, ivs), var)
+            k = abs(gate.sval(q))
+            h = m >> 1
+            if h // k > 256:
+                return None
+            ivs = []
+            # non-negative dividends: remainder r in [0, k-1]; negative dividends: r in [-(k-1), 0] (sign of the dividend)
+            pos = S & ISet(N, [(0, min(k - 1, h - 1))])
+            for j in range(h // k + 1):
+                for a, b in pos.ivs:
+                    lo, hi = j * k + a, min(j * k + b, h - 1)
+                    if lo <= hi:
+                        ivs.append((lo, hi))
+            neg = [(a, b) for a, b in S.signed_intervals() if b <= 0 or a <= 0]
+            for j in range(h // k + 1):
+                for a, b in neg:
+                    a2, b2 = max(a, -(k - 1)), min(b, 0)
+                    if a2 > b2:
+                        continue
+                    lo, hi = -(j * k) + a2, -(j * k) + b2          # dividend y = -(j*k) + r, r <= 0
+                    lo = max(lo, -h)
+                    if j == 0:
+                        lo, hi = max(lo, -(k - 1)), min(hi, -1) if b2 >= 0 and a2 < 0 else hi
+                        # r == 0 with y == 0 belongs to the non-negative branch
+                        if b2 == 0 and a2 == 0:
+                            continue
+                        hi = min(hi, -1)
+                    if lo <= hi and hi < 0:
+                        ivs.append((lo + m, hi + m))
+            return preimage(p, ISet(N, ivs), var)
         if op in ("and", "or"):
             c, y = (q, p) if gate.is_c(q) else ((p, q) if gate.is_c(p) else (None, None))
             if c is not None:
